@@ -1,16 +1,15 @@
 """C09 - emit then load returns the same tree (round trip).  See coq/Properties/C09.v for what is proved about the
-emitter model (need_quotes / escape_str / number text) and known_findings_c09.jsonl for the recorded defect classes
-of the literal-block (`multiline_strings`) mode."""
+emitter model (need_quotes / escape_str / number text, the literal-block guard against the block-scalar
+specification, implicit-key length, the block-layout grammar).  known_findings_c09.jsonl lists the defect classes
+this check found in the literal-block (`multiline_strings`) mode and in long keys: all are `fixed` now, nothing is
+suppressed, and the streams that exhibited them stay as regression inputs (a regression is a VIOLATION)."""
 import itertools
-import json
-import os
 import struct
 
 from . import core, gen
 from .core import Result, prepare, run_bin, run_mx
 
 PID = "C09"
-KNOWN_FILE = os.path.join(core.VERIF, "known_findings_c09.jsonl")
 
 # ------------------------------------------------------------------------------------------------
 # trees: ("N",) ("B",0|1) ("I",int) ("F",bits) ("S",str) ("Q",[nodes]) ("M",[(k,v)...])
@@ -132,7 +131,8 @@ def depth(t):
 
 
 # ------------------------------------------------------------------------------------------------
-# known findings: decidable predicates on (settings, tree)
+# the former defect classes (all repaired): decidable predicates on (settings, tree), used only to LABEL the cases for
+# the coverage report -- a failing case is a violation whatever its label
 # ------------------------------------------------------------------------------------------------
 def literal_ok_char(c):
     """char_traits::is_valid_literal_block_scalar (as written in /repo: the last range really ends at U+D7FFF)"""
@@ -141,20 +141,8 @@ def literal_ok_char(c):
 
 
 def literal_emitted(s):
-    """the emitter uses a literal block for s (when multiline_strings is on)"""
+    """multiline_strings considers a literal block for s (before the guards of `is_literal_block`)"""
     return "\n" in s and all(literal_ok_char(c) for c in s)
-
-
-def load_known():
-    out = []
-    if os.path.exists(KNOWN_FILE):
-        for l in open(KNOWN_FILE):
-            l = l.strip()
-            if l:
-                d = json.loads(l)
-                if d.get("property") == PID and d.get("status") == "known":
-                    out.append(d)
-    return out
 
 
 def rust_lines(s):
@@ -196,7 +184,7 @@ def trailing_newlines(s):
 
 
 def literal_classes(s, ctx):
-    """the recorded defect classes (names) that string s falls into when emitted as a literal block in context ctx"""
+    """the former defect classes (names) that string s, in context ctx, falls into"""
     if not literal_emitted(s):
         return []
     if ctx == "key":
@@ -206,19 +194,17 @@ def literal_classes(s, ctx):
     t = trailing_newlines(s)
     j = next((i for i, l in enumerate(lines) if l.strip(" ") != ""), None)
     if j is None:
-        # only spaces and line feeds: there is no content line for the scanner to find (a contentless block scalar
-        # is the empty string under clip/strip chomping, also at the end of the stream since parser fix e9e1eb4)
+        # only spaces and line feeds: there is no content line for the scanner to find
         out.append("K5-only-spaces-and-newlines")
         return out
     if any(l.startswith(" ") for l in lines[:j + 1]):
         out.append("K2-leading-space-before-or-on-first-content-line")
-    limit = 3 if ctx == "last" else 2
-    if t >= limit:
+    if t >= 2:
         out.append("K3-trailing-newlines-lost")
     if ctx == "root":
         if s[0] == "\t":
             out.append("K4a-root-block-starts-with-tab")
-        if any(l[:3] == "..." and (len(l) == 3 or l[3] in " \t") for l in lines):
+        if any(l[:3] in ("...", "---") and (len(l) == 3 or l[3] in " \t") for l in lines):
             out.append("K4b-root-block-line-is-document-end-marker")
     return out
 
@@ -236,6 +222,17 @@ def tree_classes(m, t):
 
 G1 = "G1-implicit-key-longer-than-1024"
 KEY_LIMIT = 1024
+
+
+def long_keys(t):
+    """some scalar mapping key of t is a string of more than 170 characters, i.e. one for which `is_long_key` has to look
+    at the emitted text (it may or may not exceed the implicit-key limit) -- a label for the coverage report only"""
+    k = t[0]
+    if k == "Q":
+        return any(long_keys(x) for x in t[1])
+    if k == "M":
+        return any((a[0] == "S" and len(a[1]) > 170) or long_keys(a) or long_keys(b) for a, b in t[1])
+    return False
 
 
 # ------------------------------------------------------------------------------------------------
@@ -402,10 +399,14 @@ def special_trees():
 
 
 def long_key_trees():
-    """around the loader's implicit-key limit (known finding G1), and long values (fine)"""
+    """around the loader's implicit-key limit of 1024 characters (former finding G1: longer keys take the explicit
+    `? key` form), around the byte-length shortcut of `is_long_key` ((1024 - 2) / 6 = 170 bytes), multi-line long
+    keys, and long values (fine)"""
     out = []
-    for s in ["a" * 1024, "a" * 1025, " " + "a" * 1021, " " + "a" * 1022, "\x01" * 172, "\x01" * 173, "\u00e9" * 1024,
-              "\u00e9" * 1025, "\"" * 511, "\"" * 512, "a" * 3000]:
+    for s in ["a" * 1024, "a" * 1025, " " + "a" * 1021, " " + "a" * 1022, "\x01" * 170, "\x01" * 171, "\x01" * 172,
+              "\x01" * 173, "\u00e9" * 85, "\u00e9" * 86, "\u00e9" * 1024, "\u00e9" * 1025, "\U0001f600" * 1024,
+              "\U0001f600" * 1025, "\"" * 511, "\"" * 512, "a" * 3000, "a\n" * 512, "a\nb" * 400, "a: b\n" * 300 + "c",
+              "\n" + "a" * 1100, " a\n" * 400, "a" * 1100 + "\n\n"]:
         out.append(M((S(s), I(7))))
         out.append(Q(M((S("k"), M((S(s), S(s)))))))
         out.append(M((S("k"), S(s))))
@@ -497,10 +498,10 @@ def check_C09(tier, seed):
         if not ok:
             res.add_tie_break("coqchk rejects the compiled proofs", error=out[-1500:])
     rng = gen.rng_for(seed, PID)
-    known = {d["class"]: d for d in load_known()}
     groups = c09_groups(tier, rng)
     dist, verdicts, style = {}, {}, {"plain": 0, "double-quoted": 0, "literal-block": 0}
-    cls_stat = {}           # class -> [cases in class, failing cases in class, first witness]
+    cls_stat = {}           # former defect class -> [cases in class, failing cases in class, unused]
+    max_implicit_key = [0]
     seen = set()
     nontrivial = set()
     n_model_rt = n_strings = 0
@@ -562,25 +563,25 @@ def check_C09(tier, seed):
                                                   "implementation %s" % ("succeeds" if r[1] == "1" else "fails",
                                                                          "fails: " + what if what else "succeeds"),
                                                   case=describe(c, m, t))
-                    # --- the property, on the implementation
+                    # --- the property, on the implementation (no class of failures is suppressed; the former defect
+                    #     classes only label the cases for the coverage report)
                     classes = tree_classes(m, t)
-                    if maxkey > KEY_LIMIT:
+                    if long_keys(t):
                         classes.append(G1)
                     for k in classes:
                         st = cls_stat.setdefault(k, [0, 0, None])
                         st[0] += 1
+                    if maxkey > max_implicit_key[0]:
+                        max_implicit_key[0] = maxkey
                     verdicts["ok" if not what else "fail"] = verdicts.get("ok" if not what else "fail", 0) + 1
+                    if not what and maxkey > KEY_LIMIT:
+                        what = "model: an implicit key of %d characters was emitted" % maxkey
                     if what:
-                        allowed = [k for k in classes if k in known]
-                        if allowed:
-                            for k in allowed:
-                                st = cls_stat[k]
-                                st[1] += 1
-                                if st[2] is None:
-                                    st[2] = dict(describe(c, m, t), failure=what,
-                                                 emitted=uncps(f[2])[:200] if len(f) > 2 else "")
-                        elif len(res.violations) < viol_cap:
-                            res.add_violation(what + (" [class %s is not a recorded known finding]" % classes if classes else ""),
+                        for k in classes:
+                            cls_stat[k][1] += 1
+                        if len(res.violations) < viol_cap:
+                            res.add_violation(what + (" [regression of the repaired class(es) %s]" % ", ".join(classes)
+                                                      if classes else ""),
                                               describe(c, m, t), emitted=uncps(f[2])[:400] if len(f) > 2 else "",
                                               reloaded=f[4][:400] if len(f) > 4 else "", impl="|".join(f)[:800])
                 del batch[:]
@@ -597,26 +598,16 @@ def check_C09(tier, seed):
                     flush()
             flush()
             dist[label] = count
-        for k, (n_in, n_fail, wit) in sorted(cls_stat.items()):
-            if n_fail:
-                res.known.append("%s: %s -- %d of the %d generated cases in this class fail; e.g. %s %s -> %s" % (
-                    k, known[k]["what"], n_fail, n_in, "compact=%s multiline_strings=%s" % (
-                        wit["settings"]["compact"], wit["settings"]["multiline_strings"]), wit["dump"][:120], wit["failure"]))
-        for k in known:
-            if cls_stat.get(k, [0, 0])[1] == 0:
-                res.notes.append("known finding %s was not reproduced by this run (%d cases in class)" % (
-                    k, cls_stat.get(k, [0])[0]))
         res.samples = [dict(case="c1 m0 " + short(Q(S("a: b"), M((Q(N), F(1.0)))))),
-                       dict(case="c0 m1 " + short(M((S("k"), S("a\nb")))))]
-        for k, st in sorted(cls_stat.items()):
-            if st[2]:
-                res.samples.append(dict(known_class=k, case=st[2]["case_line"][:300], failure=st[2]["failure"]))
+                       dict(case="c0 m1 " + short(M((S("k"), S("a\nb"))))),
+                       dict(case="c1 m1 " + short(M((S("a\nb"), S(" a\nb")))))]
     res.nontrivial = nontrivial
     res.coverage["input_distribution"] = dict(groups=dist, settings=["compact x multiline_strings: 4 per tree"],
                                               distinct_trees=len(seen))
     res.coverage["verdicts"] = verdicts
     res.coverage["root_string_styles"] = style
-    res.coverage["known_classes"] = {k: dict(cases_in_class=v[0], failing=v[1]) for k, v in sorted(cls_stat.items())}
+    res.coverage["repaired_classes"] = {k: dict(cases_in_class=v[0], failing=v[1]) for k, v in sorted(cls_stat.items())}
+    res.coverage["longest_implicit_key_emitted_by_the_model"] = max_implicit_key[0]
     res.coverage["traces_validated_against_impl"] = res.evaluations
     res.coverage["model_pipeline_round_trips_compared"] = n_model_rt
     res.coverage["exhaustive"] = False
@@ -625,8 +616,10 @@ def check_C09(tier, seed):
         "implementation); that it is the shortest round-tripping decimal is checked only by the reload oracle",
         "the theorems are about the Gallina model; the emitter model is tied to emitter.rs by the regenerated tables and "
         "by comparing its text with the implementation's on every generated case",
-        "C09_full (tree-level round trip through the scanner/parser/loader models) is stated, not proved; it is evaluated "
-        "on a share of the cases and refuted on the recorded defect classes",
+        "C09_full (tree-level round trip through the scanner/parser/loader models) is stated, not proved: what is proved is "
+        "that the emitted text is a sentence of the block-layout grammar (Spec/BlockLayout.v) denoting the tree, for trees "
+        "without U+FEFF in multi-line strings; the model pipeline is evaluated on a share of the cases and must agree with "
+        "the implementation's verdict",
     ]
     rule = ("trees: every string over a 20-symbol alphabet (16 indicators, space, tab, LF, digit) up to length %d in root / "
             "sequence item / mapping key / mapping value position (and up to %d in 4 nested positions), a 38-atom alphabet with "
